@@ -433,78 +433,126 @@ theorem fast_selectAndStep_nest (c : Chart) (e : EState) (ev : Option String) :
   · refine Nest.trans (nest_same [] _ _ hs) (Nest.trans (nest_emit [] [.micro 0] _ .bm rfl) ?_)
     exact fast_microstep_nest c _ _ _ _ _
 
-/-- the finalising step: `bcomp`, the exit handlers, `acomp` -/
-theorem nest_completion (c : Chart) (cfg : List Nat) (l : List Nat) (x : XS) :
-    Nest [] [] x ((l.foldl (fun x s => execBlocks c cfg (st c s).onexit x) (x.emit .bcomp)).emit .acomp) := by
-  refine Nest.trans (nest_emit [] [.completion] x .bcomp rfl) (Nest.trans ?_ (nest_emit [.completion] [] _ .acomp rfl))
-  exact nest_foldl [.completion] _ (fun x s => nest_execBlocks c cfg [.completion] trivial _ x) l _
+/-- the bottom of the stack between steps: empty, or the mark that a stable-configuration notice was the last thing
+that happened - which the engine's flags must agree with (it will not issue another one before an event or a
+micro-step) -/
+def Base (e : EState) (stk : List Frame) : Prop :=
+  stk = [] ∨ (stk = [.stable] ∧ e.spontaneous = false ∧ (e.stable = true ∨ e.pristine = true))
 
-theorem large_step_nest (c : Chart) (e : EState) : Nest [] [] e.x (Large.step c e).1.x := by
+theorem base_bm {e : EState} {stk : List Frame} (h : Base e stk) : stepTok stk .bm = some [.micro 0] := by
+  rcases h with h | ⟨h, _, _⟩ <;> subst h <;> rfl
+
+theorem base_bpe {e : EState} {stk : List Frame} (h : Base e stk) (ev : String) : stepTok stk (.bpe ev) = some [] := by
+  rcases h with h | ⟨h, _, _⟩ <;> subst h <;> rfl
+
+/-- the finalising step: `bcomp`, the exit handlers, `acomp` -/
+theorem nest_completion (c : Chart) (cfg : List Nat) (l : List Nat) (x : XS) {e : EState} {stk : List Frame} (h : Base e stk) :
+    Nest stk stk x ((l.foldl (fun x s => execBlocks c cfg (st c s).onexit x) (x.emit .bcomp)).emit .acomp) := by
+  have h1 : stepTok stk .bcomp = some (.completion :: stk) := by rcases h with h | ⟨h, _, _⟩ <;> subst h <;> rfl
+  refine Nest.trans (nest_emit stk (.completion :: stk) x .bcomp h1) (Nest.trans ?_ (nest_emit (.completion :: stk) stk _ .acomp rfl))
+  exact nest_foldl (.completion :: stk) _ (fun x s => nest_execBlocks c cfg (.completion :: stk) trivial _ x) l _
+
+/-- one call of the engine's step function: the notifications it adds take the automaton from one resting
+stack to another, and the flags keep describing the stack -/
+def StepNest (e e' : EState) : Prop :=
+  ∀ stk, Base e stk → ∃ stk', Base e' stk' ∧ Nest stk stk' e.x e'.x
+
+theorem large_step_nest (c : Chart) (e : EState) : StepNest e (Large.step c e).1 := by
+  intro stk hb
   unfold Large.step
   by_cases hf : e.finished = true
-  · rw [if_pos hf]; exact Nest.refl [] _
+  · rw [if_pos hf]; exact ⟨stk, hb, Nest.refl stk _⟩
   · rw [if_neg hf]
     by_cases ht : e.topLevelFinal = true
-    · rw [if_pos ht]; exact nest_completion c _ _ _
+    · rw [if_pos ht]; exact ⟨stk, hb, nest_completion c _ _ _ hb⟩
     · rw [if_neg ht]
       by_cases hp : e.pristine = true
       · rw [if_pos hp]
-        exact Nest.trans (nest_emit [] [.micro 0] e.x .bm rfl) (large_microstep_nest c _ _ _ _ _)
+        exact ⟨[], Or.inl rfl, Nest.trans (nest_emit stk [.micro 0] e.x .bm (base_bm hb)) (large_microstep_nest c _ _ _ _ _)⟩
       · rw [if_neg hp]
         by_cases hs : e.spontaneous = true
-        · rw [if_pos hs]; exact large_selectAndStep_nest c e none
+        · rw [if_pos hs]
+          have h0 : stk = [] := by
+            rcases hb with h | ⟨_, h, _⟩
+            · exact h
+            · rw [hs] at h; cases h
+          subst h0
+          exact ⟨[], Or.inl rfl, large_selectAndStep_nest c e none⟩
         · rw [if_neg hs]
           split
           · rename_i ev rest _
-            refine Nest.trans ?_ (large_selectAndStep_nest c _ (some ev))
-            exact nest_emit [] [] _ (.bpe ev) rfl
+            refine ⟨[], Or.inl rfl, Nest.trans ?_ (large_selectAndStep_nest c _ (some ev))⟩
+            exact nest_emit stk [] _ (.bpe ev) (base_bpe hb ev)
           · simp only
             split
-            · exact nest_emit [] [] _ .st rfl
+            · rename_i hst
+              have h0 : stk = [] := by
+                rcases hb with h | ⟨_, _, h | h⟩
+                · exact h
+                · rw [h] at hst; cases hst
+                · exact absurd h hp
+              subst h0
+              refine ⟨[.stable], Or.inr ⟨rfl, ?_, Or.inl rfl⟩, nest_emit [] [.stable] _ .st rfl⟩
+              simpa using hs
             · split
               · split
                 · split
-                  · exact Nest.refl [] _
-                  · exact Nest.refl [] _
+                  · exact ⟨stk, hb, Nest.refl stk _⟩
+                  · exact ⟨stk, hb, Nest.refl stk _⟩
                 · rename_i ev rest _ _
-                  refine Nest.trans ?_ (large_selectAndStep_nest c _ (some ev))
-                  exact nest_emit [] [] _ (.bpe ev) rfl
+                  refine ⟨[], Or.inl rfl, Nest.trans ?_ (large_selectAndStep_nest c _ (some ev))⟩
+                  exact nest_emit stk [] _ (.bpe ev) (base_bpe hb ev)
               · split
-                · exact Nest.refl [] _
-                · exact Nest.refl [] _
+                · exact ⟨stk, hb, Nest.refl stk _⟩
+                · exact ⟨stk, hb, Nest.refl stk _⟩
 
-theorem fast_step_nest (c : Chart) (e : EState) : Nest [] [] e.x (Fast.step c e).1.x := by
+theorem fast_step_nest (c : Chart) (e : EState) : StepNest e (Fast.step c e).1 := by
+  intro stk hb
   unfold Fast.step
   by_cases hf : e.finished = true
-  · rw [if_pos hf]; exact Nest.refl [] _
+  · rw [if_pos hf]; exact ⟨stk, hb, Nest.refl stk _⟩
   · rw [if_neg hf]
     by_cases ht : e.topLevelFinal = true
-    · rw [if_pos ht]; exact nest_completion c _ _ _
+    · rw [if_pos ht]; exact ⟨stk, hb, nest_completion c _ _ _ hb⟩
     · rw [if_neg ht]
       by_cases hp : e.pristine = true
       · rw [if_pos hp]
-        exact Nest.trans (nest_emit [] [.micro 0] e.x .bm rfl) (fast_microstep_nest c _ _ _ _ _)
+        exact ⟨[], Or.inl rfl, Nest.trans (nest_emit stk [.micro 0] e.x .bm (base_bm hb)) (fast_microstep_nest c _ _ _ _ _)⟩
       · rw [if_neg hp]
         by_cases hs : e.spontaneous = true
-        · rw [if_pos hs]; exact fast_selectAndStep_nest c e none
+        · rw [if_pos hs]
+          have h0 : stk = [] := by
+            rcases hb with h | ⟨_, h, _⟩
+            · exact h
+            · rw [hs] at h; cases h
+          subst h0
+          exact ⟨[], Or.inl rfl, fast_selectAndStep_nest c e none⟩
         · rw [if_neg hs]
           split
           · rename_i ev rest _
-            refine Nest.trans ?_ (fast_selectAndStep_nest c _ (some ev))
-            exact nest_emit [] [] _ (.bpe ev) rfl
+            refine ⟨[], Or.inl rfl, Nest.trans ?_ (fast_selectAndStep_nest c _ (some ev))⟩
+            exact nest_emit stk [] _ (.bpe ev) (base_bpe hb ev)
           · simp only
             split
-            · exact nest_emit [] [] _ .st rfl
+            · rename_i hst
+              have h0 : stk = [] := by
+                rcases hb with h | ⟨_, _, h | h⟩
+                · exact h
+                · rw [h] at hst; cases hst
+                · exact absurd h hp
+              subst h0
+              refine ⟨[.stable], Or.inr ⟨rfl, ?_, Or.inl rfl⟩, nest_emit [] [.stable] _ .st rfl⟩
+              simpa using hs
             · split
               · split
                 · split
-                  · exact Nest.refl [] _
-                  · exact Nest.refl [] _
+                  · exact ⟨stk, hb, Nest.refl stk _⟩
+                  · exact ⟨stk, hb, Nest.refl stk _⟩
                 · rename_i ev rest _ _
-                  refine Nest.trans ?_ (fast_selectAndStep_nest c _ (some ev))
-                  exact nest_emit [] [] _ (.bpe ev) rfl
+                  refine ⟨[], Or.inl rfl, Nest.trans ?_ (fast_selectAndStep_nest c _ (some ev))⟩
+                  exact nest_emit stk [] _ (.bpe ev) (base_bpe hb ev)
               · split
-                · exact Nest.refl [] _
-                · exact Nest.refl [] _
+                · exact ⟨stk, hb, Nest.refl stk _⟩
+                · exact ⟨stk, hb, Nest.refl stk _⟩
 
 end UscxmlVerif.Proofs.Nest
